@@ -112,8 +112,13 @@ def crashed(case, reason):
     return {'obs': None, 'fails': [{'clause': 'crash-or-hang', 'site': 'worker', 'detail': reason}]}
 
 
-def run_cases(lib, cases, timeout=300):
+def run_cases(lib, cases, timeout=120):
     out = []
+    if len(cases) > 1:
+        # pre-flight: if the very first case already kills or hangs the worker, do not bisect whole batches
+        pre = core.run_cases_bisect('c12', cases[:1], lambda cs: {'lib': lib, 'cases': cs}, crashed, 40)
+        if pre[0]['obs'] is None and pre[0]['fails'][0]['clause'] == 'crash-or-hang':
+            return pre + [{'obs': None, 'fails': [{'clause': 'not-run', 'site': 'worker', 'detail': 'the first case already crashed or hung'}]} for c in cases[1:]]
     chunks = [cases[i:i + 60] for i in range(0, len(cases), 60)]
     from concurrent.futures import ThreadPoolExecutor
     with ThreadPoolExecutor(max_workers=core.NCPU) as ex:
@@ -206,6 +211,8 @@ def first_failures(lib, cases, results, limit=5):
     out, seen = [], set()
     for c, r in zip(cases, results):
         for f in r['fails']:
+            if f['clause'] == 'not-run':
+                continue
             sig = (f['clause'], f['site'])
             if sig in seen:
                 continue
